@@ -1,9 +1,5 @@
 use std::task::Poll;
 // ---- rule R30g/R30i: the hand-written stream state machine of the async port (WalkDirIterator::poll_next)
-#[verifier::external_type_specification]
-#[verifier::accept_recursive_types(T)]
-pub struct ExPoll<T>(std::task::Poll<T>);
-
 /// a boxed in-flight future; which call it will perform when polled to completion is ghost state
 #[verifier::external_body]
 #[verifier::reject_recursive_types(T)]
